@@ -9,7 +9,7 @@ func init() {
 		// R6.1
 		variant{Prop: "C06", Name: "printer-branches-on-pretty-switch", File: a, Old: "\tls.Name.WriteTo(cw)\n\tif ls.Value != nil {", New: "\tls.Name.WriteTo(cw)\n\tif ls.Value != nil && !cw.PrettyPrint {", Rule: "R6.1", Construct: "(*ast.LetStatement).WriteTo: access"},
 		variant{Prop: "C06", Name: "pending-queue-gets-a-semicolon", File: wf, Old: "cw.pendings = append(cw.pendings, '\\n')", New: "cw.pendings = append(cw.pendings, ';', '\\n')", Rule: "R6.1", Construct: "store #"},
-		variant{Prop: "C06", Name: "comma-dropped-when-pretty", File: w, Old: "\t\tcw.separate(byte(r))\n\t}\n\tcw.emitRune(r)", New: "\t\tcw.separate(byte(r))\n\t}\n\tif cw.PrettyPrint && r == ',' {\n\t\treturn\n\t}\n\tcw.emitRune(r)", Rule: "R6.1", Construct: "WriteRune: output append"},
+		variant{Prop: "C06", Name: "comma-dropped-when-pretty", File: w, Old: "\tcw.recordMapping()\n\tcw.emitRune(r)", New: "\tcw.recordMapping()\n\tif cw.PrettyPrint && r == ',' {\n\t\treturn\n\t}\n\tcw.emitRune(r)", Rule: "R6.1", Construct: "WriteRune: output append"},
 		variant{Prop: "C06", Name: "tab-indent-with-guide-character", File: cc, Old: "opts.IndentString = \"\\t\"", New: "opts.IndentString = \"\\t|\"", Rule: "R6.1", Construct: "indent string producer"},
 		variant{Prop: "C06", Name: "default-indent-visible", File: wf, Old: "indent = \"  \" // default: 2 spaces", New: "indent = \"··\"", Rule: "R6.1", Construct: "writeIndent: output append"},
 		// R6.2
